@@ -46,7 +46,8 @@ def laguerre_half(n, x):
 SPECIES = ["X", "Y", "X"]  # three atoms of two species, interleaved: the potential is the SUM over the atoms of form factor x structure factor
 
 
-def trace(fn):
+def trace(fn, zero_cloc=False):
+    """zero_cloc: species Y has NO Gaussian terms (C1 = ... = C4 = 0 exactly, as in 32 of the bundled parameter files: Ga, Ge, As, Kr, Zn ...)."""
     C = new_ctx()
     ld = make_loader(native_extra=("eminus",))
     g2 = C.var("G2", positive=True)
@@ -66,7 +67,8 @@ def trace(fn):
     ld.backend.real = lambda x: x
     par = {}
     for sp in sorted(set(SPECIES)):
-        par[sp] = dict(Z=C.var(f"Zion{sp}", positive=True), s=C.var(f"rloc{sp}", positive=True), cs=[C.var(f"C{k + 1}{sp}") for k in range(4)])
+        par[sp] = dict(Z=C.var(f"Zion{sp}", positive=True), s=C.var(f"rloc{sp}", positive=True),
+                       cs=[A.ZERO for k in range(4)] if (zero_cloc and sp == "Y") else [C.var(f"C{k + 1}{sp}") for k in range(4)])
     at.Z = np.array([par[sp]["Z"] for sp in SPECIES], dtype=object)
     scf = Stub()
     scf.atoms = at
@@ -88,8 +90,17 @@ class LocalFT:
         self.fn, self.clause = fn, clause
 
     def __call__(self, ob, tier, seed):
+        r = self.decide(ob, False)
+        if r.verdict == DISCHARGED and self.fn == "init_gth_loc":
+            # second instance: a species without Gaussian terms (all C_k exactly zero) still contributes its screened Coulomb term
+            r2 = self.decide(ob, True)
+            if r2.verdict != DISCHARGED:
+                return r2
+        return r
+
+    def decide(self, ob, zero_cloc):
         try:
-            C, v0, v1, g2, par, Sf = trace(self.fn)
+            C, v0, v1, g2, par, Sf = trace(self.fn, zero_cloc)
             pi = C.pi()
 
             def form_factor(sp):
@@ -145,7 +156,18 @@ class LocalFT:
 
         eminus.config.backend = "numpy"
         mp.mp.dps = 30
-        Z, s, cs, al = 4.0, 0.44, [-7.1, 1.3, 0.4, -0.2], 1.9
+        first = self.replay_one(wit, [-7.1, 1.3, 0.4, -0.2])
+        if first[0] or self.fn != "init_gth_loc":
+            return first
+        # a parameter set without Gaussian terms
+        second = self.replay_one(wit, [0.0, 0.0, 0.0, 0.0])
+        return (second if second[0] else first)
+
+    def replay_one(self, wit, cs):
+        import mpmath as mp
+
+        mp.mp.dps = 30
+        Z, s, al = 4.0, 0.44, 1.9
         at = Stub()
         at.atom, at.Natoms = ["X"], 1
         Gs = np.array([0.0, 0.6, 1.7, 4.0])
@@ -198,7 +220,8 @@ class LocalFT:
         a = [[7.0, 0.4, 0.2], [0.3, 7.5, 0.5], [0.1, 0.6, 8.0]]
         out = []
         for atom, pos in ((["Li", "H"], [[0.1, 0.2, 0.3], [0.4, 0.2, 3.1]]), (["H", "H"], [[0.3, 0.1, 0.2], [1.5, 0.4, 0.3]]),
-                          (["H", "O", "H"], [[1.1, 1.3, 0.9], [3.2, 1.0, 1.4], [2.0, 3.1, 2.2]])):
+                          (["H", "O", "H"], [[1.1, 1.3, 0.9], [3.2, 1.0, 1.4], [2.0, 3.1, 2.2]]), (["Ge", "H"], [[0.2, 0.4, 0.1], [2.9, 0.3, 0.2]]),
+                          (["Kr"], [[0.7, 0.2, 0.5]])):
             def vloc(at_, pos_):
                 at = Atoms(at_, pos_, ecut=4, a=a)
                 return np.asarray(SCF(at, pot=pot, verbose="critical").Vloc)
